@@ -2,6 +2,7 @@
 import random
 
 import gen_parse
+import parse_model
 import runner
 from registry import REGISTRY
 
@@ -47,11 +48,20 @@ def run(chk):
         if o.get("parseErrors") or "parsePanic" in o:
             chk.violation("oracle", case={"script": t}, go={"parseErrors": o.get("parseErrors")}, site="comment-glued-to-asset-token",
                           oracle=["a comment written directly after an asset/number/ratio token changes the parse: %s" % o.get("parseErrors")[:1]])
+    # the parser model (Model/Lex.lean, Model/Parse.lean) on the same texts, and on layout-stripped variants
+    mtexts = [t for t, _ in items] + probes
+    mgos = gos + pouts
+    pdis, pstats = parse_model.compare(mtexts, mgos)
     for c, go, m, why in fails[:10]:
         chk.violation("oracle", case=c, go=go, model=m, oracle=why)
     if not fails:
         for t in broken:
             chk.violation("theorem:%s no longer checks" % t, found_input=False, site="theorem:" + t)
+        for c, go, m, why in pdis[:3]:
+            chk.violation("correspondence:parser model and implementation differ: %s" % why, case=c, go=go, model=m, found_input=False)
+    chk.coverage.update(pstats)
+    chk.coverage["model_comparisons"] = pstats["parser_model_comparisons"]
+    chk.coverage["model_disagreements"] = len(pdis)
     chk.coverage.update({
         "programs": len(items), "disagreements_checked": len(items), "evaluations": len(items),
         "distinct_nontrivial": len(distinct), "oracle_failures": len(fails),
